@@ -348,3 +348,34 @@ def replay(case) -> List[Violation]:
         return out[:1]
     ref, real, bad = run_case(tuple(case["prog"]), case["data"], case["ctx"], None, scratch)
     return [Violation(bad[0], bad[1], case)] if bad else []
+
+
+# ---------------------------------------------------------------------------------------------
+# environment grid (mc/envgrid.py): what a run returns is a function of (configuration, payload) in every environment
+
+def env_cases(tier: str):
+    from mc import envgrid
+
+    from mc.props.c06 import ENV_MANY_KEYS
+
+    progs = envgrid.pick(program_set("quick"), 60 if tier == "quick" else 400) + [p for p in gen.LONG_PROGS][:2] + list(ENV_MANY_KEYS)
+    out = []
+    for prog in progs:
+        ctxs = gen.contexts_for(prog)
+        out.append({"prog": list(prog), "data": data_kinds_for(prog)[-1], "ctx": ctxs[-1]})
+        if len(ctxs) > 1:
+            out.append({"prog": list(prog), "data": data_kinds_for(prog)[0], "ctx": ctxs[0]})
+    return out
+
+
+def env_observe(case):
+    from mc import envgrid
+
+    scratch = envgrid.scratch()
+    prog = tuple(case["prog"])
+    try:
+        ref, real, bad = run_case(prog, case["data"], case["ctx"], None, scratch)
+    except Exception as exc:
+        return {"loader": type(exc).__name__}
+    return envgrid.norm({"status": real.status, "error": real.error, "index": real.index, "data": real.data, "ctx": harness.canon_ctx(real.ctx),
+                         "log": real.log, "files": real.files, "judged": bad[0] if bad else None}, scratch)
